@@ -242,7 +242,7 @@ class Engine:
         self.violations.append((label, self.model_inputs(m), list(self.trace)))
 
     # ------------------------------------------------------------------ exploration
-    def explore(self, fn, on_path, prefixes=None, max_paths=None, deadline=None):
+    def explore(self, fn, on_path, prefixes=None, max_paths=None, deadline=None, stop=None):
         """explore the subtrees below ``prefixes`` (default: the whole tree).  Returns the left-over work-list
         (empty iff the exploration of these subtrees was completed)."""
         prev = Engine.current
@@ -254,6 +254,10 @@ class Engine:
                 if max_paths is not None and n >= max_paths:
                     break
                 if deadline is not None and time.time() > deadline:
+                    break
+                if stop is not None and stop():
+                    self.stopped = True
+                    self.work = []
                     break
                 prefix = self.work.pop()
                 self._reset_path(prefix)
